@@ -1,7 +1,18 @@
 ------------------------------ MODULE StreamMC ------------------------------
 EXTENDS Stream
 SizeLists == { <<3>>, <<0, 2>>, <<2, 0, 1>>, <<1, 3>>, <<4, 1, 1>>, <<>> , <<0>> }
-MCParams == { [sizes |-> s, pack |-> pk, block |-> b, limit |-> l, honours |-> h, short |-> sh] :
-                s \in SizeLists, pk \in {1, 3, 5}, b \in {1, 2, 4}, l \in {1, 2, 8}, h \in BOOLEAN, sh \in {0, 1, 2} }
+MCParams == { [sizes |-> s, pack |-> pk, block |-> b, limit |-> l, honours |-> h, short |-> sh, slack |-> 0, drains |-> dr] :
+                s \in SizeLists, pk \in {1, 3, 5}, b \in {1, 2, 4}, l \in {1, 2, 8}, h \in BOOLEAN, sh \in {0, 1, 2}, dr \in BOOLEAN }
 Valid == { q \in MCParams : q.short <= Sum(q.sizes) /\ (Sum(q.sizes) = 0 => q.short = 0) }
+
+(* C20: the big member first, last, between small ones, alone; from highly compressible (pack 1) to incompressible. *)
+MemSizes == { <<12>>, <<1, 1, 1, 1, 8>>, <<8, 1, 1, 1>>, <<1, 1, 8, 1, 1>>, <<1, 0, 1, 9>> }
+MemBase == { [sizes |-> s, pack |-> pk, block |-> b, limit |-> l, honours |-> h, short |-> 0, slack |-> sl, drains |-> dr] :
+               s \in MemSizes, pk \in {1, 2, 6, 12, 14}, b \in {1, 2}, l \in {2, 3}, h \in BOOLEAN, sl \in {0, 1}, dr \in BOOLEAN }
+(* the repaired tree: expanding decoders honour the request (exactly or with a constant overshoot) and are drained before     *)
+(* the next read; decoders that ignore the request are the 1:1 coders (Copy, BCJ, 7zAES): pack >= plain                       *)
+MemRepaired == { q \in MemBase : q.drains /\ (q.honours \/ (q.pack >= Sum(q.sizes) /\ q.slack = 0)) }
+(* negative controls: the tree before the repairs *)
+MemIgnoring == { q \in MemBase : q.drains /\ ~q.honours /\ q.slack = 0 }      \* Deflate, Deflate64, ZStandard, Brotli returned a whole block's expansion
+MemNoDrain  == { q \in MemBase : ~q.drains /\ q.honours }                     \* honouring decoders were fed a new block on every call
 =============================================================================
